@@ -86,3 +86,10 @@ Proof.
   induction l as [|x xs IH]; simpl; [reflexivity|]. intros H.
   apply andb_prop in H. destruct H as [Hx Hxs]. rewrite Hx. f_equal. auto.
 Qed.
+
+Lemma filter_all_false {A} (f : A -> bool) (l : list A) :
+  (forall x, In x l -> f x = false) -> filter f l = [].
+Proof.
+  induction l as [|x r IH]; intros H; [reflexivity|]. simpl.
+  rewrite (H x (or_introl eq_refl)). apply IH. intros y Hy. apply H. now right.
+Qed.
